@@ -381,6 +381,30 @@ pub fn generate(g: &mut Gen, thorough: bool) {
             g.push(super::op_line("default", &res, &[], def, "both", "F", &data), "witness-modifier-only-steps", true);
         }
     }
+    // invocations with many arguments, and chains of macros that each add some: however many names are in sight,
+    // the caller's value for the one the body asks for is the one it gets
+    {
+        let res = vec![
+            ("w:ref".to_string(), "helmert x=$x".to_string()),
+            ("w:def".to_string(), "helmert x=(5)".to_string()),
+            ("w:both".to_string(), "helmert x=$x(5) y=$y(1)".to_string()),
+        ];
+        for width in [10usize, 30, 61, 62, 63, 64, 65, 100, 130] {
+            for at in [0, width / 2, width] {
+                let mut args: Vec<String> = (0..width).map(|k| format!("u{k}={k}")).collect();
+                args.insert(at, "x=9".to_string());
+                let args = args.join(" ");
+                emit(g, &res, &format!("w:ref {args}"), &Expect::Steps(vec![("helmert x=9".to_string(), false)]), "witness-wide-invocation", true);
+                emit(g, &res, &format!("w:def {args}"), &Expect::Steps(vec![("helmert x=9".to_string(), false)]), "witness-wide-invocation", true);
+                emit(g, &res, &format!("w:both {args}"), &Expect::Steps(vec![("helmert x=9 y=1".to_string(), false)]), "witness-wide-invocation", true);
+            }
+        }
+        for depth in [4usize, 16, 24, 32, 40] {
+            let mut res: Vec<(String, String)> = (0..depth).map(|k| (format!("d:l{k}"), format!("d:l{} x=$x a{k}=1 b{k}=2", k + 1))).collect();
+            res.push((format!("d:l{depth}"), "helmert x=$x(5)".to_string()));
+            emit(g, &res, "d:l0 x=9", &Expect::Steps(vec![("helmert x=9".to_string(), false)]), "witness-deep-chain", true);
+        }
+    }
     // an invocation is expanded when it is instantiated, from the body registered then: the same text instantiated
     // again after the macro was registered again is the new body
     super::c18::redefinition_histories(g);
